@@ -169,6 +169,7 @@ func fixedCases() {
 		}
 	}
 	doTrs(trsDesc{P: []float64{1, 2, 3}, S: []float64{2, 3, 4}, Q: []float64{0, 0, 1, 1}, V: []float64{1, 1, 1}, Exact: true})
+	doTrsCtor(trsCtorDesc{P: []float64{1, 2, 3}, S: []float64{2, 3, 4}, Q: []float64{0, 0, 1, 1}, D: []float64{-5, 6, 7}, V: []float64{1, 1, 1}, Exact: true})
 	doTheta(thetaDesc{Theta: math.Pi / 2, Axis: []float64{0, 0, 2}, V: []float64{1, 0, 0}})
 	doTheta(thetaDesc{Theta: math.Pi, Axis: []float64{0, 1, 0}, V: []float64{1, 2, 3}})
 }
@@ -251,7 +252,13 @@ func generated(r *hx.Rng, i int) {
 		}
 		doTheta(thetaDesc{Theta: (r.Float()*2 - 1) * 2 * math.Pi, Axis: axis, V: floats(r, 3, 4)})
 	case 5: // TRS
-		if exact {
+		if r.Chance(1, 3) { // single-purpose constructors and Translate
+			if exact {
+				doTrsCtor(trsCtorDesc{P: ints(r, 3, -9, 9), S: ints(r, 3, -4, 4), Q: ints(r, 4, -4, 4), D: ints(r, 3, -9, 9), V: ints(r, 3, -9, 9), Exact: true})
+			} else {
+				doTrsCtor(trsCtorDesc{P: floats(r, 3, 8), S: floats(r, 3, 3), Q: unitQuat(r), D: floats(r, 3, 8), V: floats(r, 3, 4)})
+			}
+		} else if exact {
 			doTrs(trsDesc{P: ints(r, 3, -9, 9), S: ints(r, 3, -4, 4), Q: ints(r, 4, -4, 4), V: ints(r, 3, -9, 9), Exact: true})
 		} else {
 			doTrs(trsDesc{P: floats(r, 3, 8), S: floats(r, 3, 3), Q: unitQuat(r), V: floats(r, 3, 4)})
